@@ -145,7 +145,7 @@ func renderTokens(t *rapid.T, n *abe.Node, need int, style int, st *renderStats)
 
 func isWord(tok string) bool { return tok != "(" && tok != ")" && tok != ":" }
 
-var blanks = []string{"", "", " ", " ", " ", "  ", "\t", "\n", "\r\n", " \t "}
+var blanks = []string{"", "", " ", " ", " ", "  ", "\t", "\n", "\r\n", " \t ", "\r", "\n\n \r"}
 
 func joinTokens(t *rapid.T, toks []string, plain bool, st *renderStats) string {
 	var b strings.Builder
